@@ -1591,6 +1591,13 @@ func c20Compare(c *Ctx, cases []c20ShellCase) {
 		o.in = runInterp(c, syntax.LangBash, cases[i].script)
 		if !cases[i].noBash {
 			o.sh = runShell(c, "bash", cases[i].script)
+			// a loaded machine can exceed the 3 s budget of a trivial script: retry before judging
+			for k := 0; k < 2 && o.sh.TimedOut; k++ {
+				o.sh = runShell(c, "bash", cases[i].script)
+			}
+		}
+		for k := 0; k < 2 && o.in.TimedOut; k++ {
+			o.in = runInterp(c, syntax.LangBash, cases[i].script)
 		}
 		return o
 	})
